@@ -20,6 +20,7 @@ func GenCfg(t *rapid.T) Cfg {
 		FmtKind:   rapid.IntRange(0, 4).Draw(t, "customFormatName"),
 		NestedDir: rapid.Bool().Draw(t, "nested"),
 		DevShm:    rapid.IntRange(0, 5).Draw(t, "devShm") == 0,
+		HugeDur:   rapid.SampledFrom([]int{0, 0, 0, 1, 2}).Draw(t, "hugeMaxDuration"),
 	}
 }
 
